@@ -11,3 +11,6 @@ PROOF_FILES = [f for f in ['proofs/MetaProofs.v', 'proofs/WorldProofs.v'] if os.
 
 def main(tier, seed):
     return icheck.run(PROP, tier, seed, genchart.Profile(p_contract=0.1, p_send=0.5), ifam.ScenarioSpec(n_rec=2, props=2, p_queue=0.4), icheck.interest_c10, PROOF_FILES, consts=True, assumptions=['user notify names differ from the built-in meta-event names'])
+
+
+replay = icheck.replay
